@@ -100,6 +100,7 @@ theorem tail_storage (cfg : Cfg) (gen sgen : Nat → Bytes) (q : Req) (c : Ctx) 
     (hne : token ≠ [])
     (hT : (c.gens = [] ∧ token = q.ck ∧ s1.liveAt token = true) ∨ c.gens = [token])
     (hTi : ∃ i, i < c.st.ntok ∧ gen i = token)
+    (hSU : scfg.single = true → isSafe q.method = false → c.gens = [token])
     (c2 : Ctx) (r : Resp) (hr : finishTail cfg sgen q c token = (c2, r)) :
     c2.st.now = c.st.now ∧ c2.st.ntok = c.st.ntok ∧ c2.gens = c.gens ∧
     ((r.pass = false ∧ isSafe q.method = false ∧ c2.st.store = c.st.store ∧ r.ck = none) ∨
@@ -142,6 +143,9 @@ theorem tail_storage (cfg : Cfg) (gen sgen : Nat → Bytes) (q : Req) (c : Ctx) 
     case h11 =>
       rw [afterDel_id _ _ _ _ (Or.inr (Or.inr hof))]
       exact cookie_some scfg s1 q _ _ token hck hne hiss (hkeep (obsOf cfg c'.st (assemble c' r)) hg)
+        (fun h1 h2 => by
+          show (c'.gens).contains token = true
+          rw [hg, hSU h1 h2]; simp)
         (fun _ h => by rw [hof] at h; cases h)
     case h12 =>
       rw [hst, hnow, hidle]
@@ -158,7 +162,10 @@ theorem tail_storage (cfg : Cfg) (gen sgen : Nat → Bytes) (q : Req) (c : Ctx) 
     refine Exists.intro ?w3 ⟨?h31, ?h32, ?h33⟩
     case h31 =>
       rw [afterDel_id _ _ _ _ hnd]
-      refine cookie_some scfg s1 q _ _ token hck hne hiss (hkeep (obsOf cfg c'.st (assemble c' r)) hg) (fun _ _ => ?_)
+      refine cookie_some scfg s1 q _ _ token hck hne hiss (hkeep (obsOf cfg c'.st (assemble c' r)) hg)
+        (fun h1 h2 => by
+          show (c'.gens).contains token = true
+          rw [hg, hSU h1 h2]; simp) (fun _ _ => ?_)
       apply probeHas_storage cfg _ _ token (c.st.now + cfg.idle) _ hb
       · rw [hst]; exact lookup_put_self _ _ _
       · rw [hst]; show c.st.now < c.st.now + cfg.idle; omega
@@ -314,6 +321,7 @@ theorem sim_storage (raw : List Bytes) (cfg : Cfg)
         IssuedOK gen c1'.st.ntok (s.issued ++ c1'.gens) → st.ntok ≤ c1'.st.ntok → token ≠ [] →
         ((c1'.gens = [] ∧ token = q.ck ∧ s.liveAt token = true) ∨ c1'.gens = [token]) →
         (∃ i, i < c1'.st.ntok ∧ gen i = token) →
+        (cfg.single = true → isSafe q.method = false → c1'.gens = [token]) →
         ∃ s', specReq (specConfig cfg.backend cfg.ext cfg.single cfg.idle raw) s q (obsOf cfg c2.st (assemble c2 r2)) = .ok s' ∧
           s'.now = c2.st.now ∧ IssuedOK gen c2.st.ntok s'.issued ∧
           StoreOK gen cfg.idle c2.st.ntok c2.st.now c2.st.store s'.live ∧ keysNodup c2.st.store by
@@ -321,6 +329,7 @@ theorem sim_storage (raw : List Bytes) (cfg : Cfg)
       · subst htok
         rw [finish_fresh] at hf
         refine H _ _ hf hc1now rfl rfl rfl rfl ?_ (by simp [hc1ntok]) (hgen _) (Or.inr (by simp [hc1gens])) ⟨c1.st.ntok, by simp, rfl⟩
+          (fun _ _ => by simp [hc1gens])
         show IssuedOK gen (c1.st.ntok + 1) (s.issued ++ (c1.gens ++ [gen c1.st.ntok]))
         rw [hc1gens, hc1ntok]
         exact issuedOK_append gen _ _ hI
@@ -337,10 +346,16 @@ theorem sim_storage (raw : List Bytes) (cfg : Cfg)
             · simp only [hsg, Bool.false_eq_true, if_false] at hsm
               rw [hsm.1]; exact ⟨rfl, hl⟩
         obtain ⟨hl1, hl2, hl3⟩ := storeLive_spec gen cfg.idle st s tok hnow hI hS hkept.2
-        refine H _ _ hf hc1now rfl rfl rfl rfl ?_ (by simp [hc1ntok]) htok (Or.inl ⟨hc1gens, hkept.1, hl1⟩) ?_
+        refine H _ _ hf hc1now rfl rfl rfl rfl ?_ (by simp [hc1ntok]) htok (Or.inl ⟨hc1gens, hkept.1, hl1⟩) ?_ ?_
         · rw [hc1gens, hc1ntok, List.append_nil]; exact hI
         · rw [hc1ntok]; exact hl3
-    intro c1' token hft hn1 hst1 hfg1 hfs1 hfd1 hI1 hnt1 hne hT hTi
+        · -- single use: the switch never keeps the token of an unsafe request
+          intro hsg hu
+          exfalso
+          unfold DecStorage at hdec
+          simp only [hu, Bool.false_eq_true, if_false, hsg, if_true] at hdec
+          exact htok hdec.2.2.2.2.2.2.1
+    intro c1' token hft hn1 hst1 hfg1 hfs1 hfd1 hI1 hnt1 hne hT hTi hSU
     have hfr : Frame c1' c2 := by have := tail_frame cfg sgen q c1' token; rw [hft] at this; exact this
     obtain ⟨hg2, hn2, hnt2⟩ := hfr
     -- the specification state with the issued set brought up to date
@@ -367,7 +382,7 @@ theorem sim_storage (raw : List Bytes) (cfg : Cfg)
       have hNc : keysNodup c1'.st.store := by rw [hst1, hst]; exact hN
       obtain ⟨_, _, _, hcase⟩ := tail_storage cfg gen sgen q c1' token _
         ({ s with issued := s.issued ++ c2.gens } : SpecSt) s.live hb hsb rfl hpos (by rw [hn1]; exact hnow) hI2 hSc hNc hne hT hTi
-        c2 r2 hft
+        hSU c2 r2 hft
       rcases hcase with ⟨_, hu, _, _⟩ | ⟨hp, _, live2, hcc, hS2, hN2⟩
       · rw [hsafe] at hu; cases hu
       · obtain ⟨hps, hrest⟩ := hfin live2 hS2 hN2
@@ -399,7 +414,7 @@ theorem sim_storage (raw : List Bytes) (cfg : Cfg)
       obtain ⟨live1, hl1eq, hSc, hNc, hSc'⟩ := hlive1
       obtain ⟨_, _, _, hcase⟩ := tail_storage cfg gen sgen q c1' token _
         ({ s with issued := s.issued ++ c2.gens } : SpecSt) live1 hb hsb rfl hpos (by rw [hn1]; exact hnow) hI2 hSc hNc hne hT hTi
-        c2 r2 hft
+        hSU c2 r2 hft
       rcases hcase with ⟨hp, _, hst2, hck2⟩ | ⟨hp, hearly, live2, hcc, hS2, hN2⟩
       · -- the store could not be written: turned away
         have hS2 : StoreOK gen cfg.idle c1'.st.ntok c1'.st.now c2.st.store s.live := by rw [hst2]; exact hSc'
